@@ -470,6 +470,10 @@ class IntervalTier(textgrid_tier.TextgridTier):
         else:
             interval = entry
 
+        # Labels carry no surrounding whitespace (see _homogenizeEntries)
+        if interval.label != interval.label.strip():
+            interval = Interval(interval.start, interval.end, interval.label.strip())
+
         matchList = self.crop(
             interval.start, interval.end, CropCollision.LAX, False
         )._entries
